@@ -535,9 +535,6 @@ func runC14(cfg *vh.Config) error {
 		for i, o := range outs {
 			res.Count("print_job")
 			in := map[string]any{"descriptor": jobs[i].Name, "prints": reps}
-			if i == 0 {
-				in["printed_once"] = o.First
-			}
 			if o.Pan != "" {
 				res.Fail(vh.Failure{Case: caseNo, Stream: "print", Sig: "C14 printer fails: " + errClass(o.Pan), Clause: "printed text", Input: in, Got: o.Pan})
 			} else if o.Diff != "" {
@@ -558,6 +555,32 @@ func runC14(cfg *vh.Config) error {
 					addCase(fmt.Sprintf("COptions %s [%s] %s", b2(ob.FieldLike), strings.Join(pairs, "; "), coqStrList(ob.Names)), "print", in, ob.Names)
 					res.Count("case_options")
 				}
+			}
+		}
+		caseNo++
+	}
+
+	// ---- stream: package loading against the model's `load` (CLoad): the real PackageSet after compiling
+	// under shuffled listings / call order vs the skeleton run on the implementation's own file summaries
+	{
+		nL := cfg.Scale(14, 80)
+		if nL > nB {
+			nL = nB
+		}
+		lobs := parallel(nL, "load", caseNo,
+			func(i int) any { return map[string]any{"files": bundles[i].Content, "packages": bundles[i].Packages} },
+			func(i int) loadObs { return observeLoad(bundles[i], cfg.Seed*104729+uint64(i)) })
+		for i, lo := range lobs {
+			in := map[string]any{"files": bundles[i].Content, "packages": bundles[i].Packages}
+			if lo.Err != "" {
+				if _, bad := all[i].Runs[0].Errs[bundles[i].Packages[0]]; !bad {
+					res.Fail(vh.Failure{Case: caseNo, Stream: "load", Sig: "C14 compile outcome differs between configurations", Clause: "independent of listing order and call order", Input: in, Got: "baseline compiled; shuffled run: " + lo.Err})
+				}
+				continue
+			}
+			for _, pkg := range bundles[i].Packages {
+				addCase(lo.caseTerm(pkg), "load", in, lo.Pkgs[pkg])
+				res.Count("case_load")
 			}
 		}
 		caseNo++
